@@ -297,3 +297,42 @@ func ruleT6(r *Run) {
 	r.Extra["t6_slice_writers"] = nSlice
 	r.Extra["t6_2d_writers"] = n2d
 }
+
+// ---------------------------------------------------------------------------------------
+// T9 digit-table lookups of the date writer are in range
+
+func init() {
+	register("T9", "the year handed to writeDatePart (which indexes the two-digit table with year/100 and year%100) is dominated by a check that it lies within the four digits the format has; the other date/time parts come from time.Time accessors whose ranges fit the tables (axiom)", 2, ruleT9)
+}
+
+func ruleT9(r *Run) {
+	p := r.P
+	wd := p.LookupFunc("io", "Encoder.writeDatePart")
+	if wd == nil {
+		r.Undec("writeDatePart", 0, "not found")
+		return
+	}
+	r.Assumption("T9: time.Time.Month/Day/Clock/Nanosecond return values within 1..12, 1..31, 0..23/59/59, 0..999999999 (documented), which fit digit2/digit3")
+	w := &w1{p: p, tainted: map[types.Object]bool{}, raw: map[types.Object]bool{}}
+	n := 0
+	p.EachFunc(func(pkg *packages.Package, fd *ast.FuncDecl) {
+		info := pkg.TypesInfo
+		parents := parentMap(fd)
+		ast.Inspect(fd.Body, func(m ast.Node) bool {
+			call, ok := m.(*ast.CallExpr)
+			if !ok || Callee(info, call) != wd || len(call.Args) < 1 {
+				return true
+			}
+			n++
+			key := fmt.Sprintf("year range before writeDatePart in %s #%d", p.DeclName(fd), n)
+			v := identObj(info, call.Args[0])
+			if v == nil {
+				r.Undec(key, call.Pos(), "year argument is not a variable")
+				return true
+			}
+			lo, up := w.bounds(info, factsWithSwitch(parents, call), v, fd.Body, call.Pos())
+			r.Check(lo && up, key, call.Pos(), "year bounded below and above", "the year reaches writeDatePart without a two-sided range check: a time whose year is negative or has more than four digits makes the encoder panic (slice bounds out of range) instead of reporting an error")
+			return true
+		})
+	})
+}
